@@ -519,8 +519,9 @@ of_status_t	of_rs_2_m_finish_decoding (of_rs_2_m_cb_t*	ofcb)
 			*ass_buf = ofcb->decoded_source_symbol_callback (ofcb->context_4_callback,
 					ofcb->encoding_symbol_length, tmp_idx);
 		}
-		else
+		if (*ass_buf == NULL)
 		{
+			/* no callback, or the application lets the library allocate the buffer */
 			*ass_buf = (void *) of_malloc (ofcb->encoding_symbol_length);
 		}
 		if (*ass_buf == NULL)
